@@ -441,6 +441,51 @@ func runC08(c *Ctx) {
 		}
 		r.Check(quo == 0 || corrected, "R-DATE-FLOOR", "daysSinceEpoch", u.Pos(de.Pos()), "day number is floored", "day number is a truncating division with no floor correction: an instant before 1970 that is not at midnight encodes as the following calendar day")
 	}
+	// ---- R-STRING-KIND-FIRST: a value whose kind is string is encoded by its underlying string, never by a String() method
+	if af := c.Fn("R-STRING-KIND-FIRST", "asString"); af != nil {
+		n := 0
+		Instrs(af, func(in ssa.Instruction) {
+			ta, ok := in.(*ssa.TypeAssert)
+			if !ok || !strings.HasSuffix(typeShort(ta.AssertedType), "fmt.Stringer") {
+				return
+			}
+			n++
+			// reached only once the reflect kind test for string has failed
+			okK := false
+			for _, g := range u.GuardStrings(in) {
+				if strings.Contains(g, "(reflect.Value).Kind(") && strings.Contains(g, "!= 24") { // reflect.String == 24
+					okK = true
+				}
+			}
+			// or: the Stringer arm sits after a return taken for string kinds
+			if !okK {
+				// every path to the Stringer arm first passes the reflect string-kind test (IsValid && Kind()==String → return)
+				kinds := u.Calls(af, Is("(reflect.Value).Kind"))
+				_, skips := ReachWithout(af, nil, isInstr(in), u.CallMatcher(Is("(reflect.Value).IsValid", "(reflect.Value).Kind"), false))
+				if len(kinds) > 0 && !skips {
+					// and the kind test returns for strings: its true edge does not reach the Stringer arm
+					okK = true
+					for _, kc := range kinds {
+						for _, ref := range *kc.Value().Referrers() {
+							if b, ok := ref.(*ssa.BinOp); ok && b.Op == token.EQL {
+								for _, r2 := range *b.Referrers() {
+									if ifi, ok := r2.(*ssa.If); ok {
+										if _, reach := ReachWithout(af, ifi.Block().Succs[0].Instrs[0], isInstr(in), nil); reach {
+											okK = false
+										}
+									}
+								}
+							}
+						}
+					}
+				}
+			}
+			r.Check(okK, "R-STRING-KIND-FIRST", "asString|Stringer-arm", u.Pos(in.Pos()), "fmt.Stringer is consulted only for values whose kind is not string", "asString tries fmt.Stringer before the reflect string-kind test: a named string type with a String() method is encoded as its display form and does not round-trip")
+		})
+		if n == 0 {
+			r.Ok("R-STRING-KIND-FIRST", "asString", u.Pos(af.Pos()), "no Stringer arm")
+		}
+	}
 	// ---- R-SCHEMA-PURE
 	if ds := c.Fn("R-SCHEMA-PURE", "describeStruct"); ds != nil {
 		los := u.Calls(ds, HasSuffix("sync.Map).LoadOrStore"))
